@@ -181,14 +181,37 @@ def r3(cx):
         cx.site('%s: return Ok(()) at %s' % (rb.fn, rb.loc(s)))
         conds = Q.dominating_conditions(F, rb, du2, b)
         zero = False
+
+        def from_read(operand):
+            call = Q.value_source(rb, du2, operand)
+            return call is not None and Q.callee_is(call, ['*::Read::read'])
         for org, lab, e in conds:
+            # pattern form: match read(..).await { Ok(0) => .. }
             if lab == ('int', 0) and org['k'] == 'place' and any(isinstance(x, dict) and x.get('v') == 'Ok' for x in (org['pl'].get('p') or [])):
-                call = Q.value_source(rb, du2, {'cp': {'l': org['pl']['l']}})
-                if call is not None and Q.callee_is(call, ['*::Read::read']):
+                if from_read({'cp': {'l': org['pl']['l']}}):
+                    zero = True
+            # comparison form: if count == 0 { .. } with count the Ok payload of read
+            if org['k'] == 'binop' and org['rv']['op'] in ('Eq', 'Ne'):
+                a_, b_ = org['rv']['a'], org['rv']['b']
+                const0 = [o for o in (a_, b_) if str(o.get('c', '')).split('_')[0] == '0']
+                other = [o for o in (a_, b_) if 'cp' in o or 'mv' in o]
+                want = ('bool', True) if org['rv']['op'] == 'Eq' else ('bool', False)
+                if const0 and other and lab == want and from_read(other[0]):
                     zero = True
         if not zero:
             cx.violation(rb.root, 'ok-without-eof', 'read_all_to can report success before a zero-length read (EOF)',
                          loc=rb.loc(s))
+    # every exit after the scratch space was appended truncates the buffer back to the data actually read
+    ext = Q.find_calls(rb, [Q.re.compile(r'Extend<.*>>::extend$'), '*::Vec::<T, A>::resize', 'alloc::vec::Vec::<T, A>::extend_from_slice'])
+    trunc = Q.find_calls(rb, ['alloc::vec::Vec::<T, A>::truncate'])
+    cx.require(ext, 'scratch-space extension of the buffer not found in read_all_to')
+    for b, t in ext:
+        cx.site('%s: buffer extended with scratch bytes at %s; truncate sites: %d' % (rb.fn, rb.loc(t), len(trunc)))
+        p = Q.must_pass(rb, rb.succ(b), {tb for tb, _ in trunc})
+        if p:
+            cx.violation(rb.root, 'exit-without-truncate', 'read_all_to can return (e.g. on a read error) leaving its zero-filled scratch '
+                         'space in the caller\'s buffer: bytes nobody wrote become part of the command substitution result',
+                         loc=rb.loc(rb.term(p[-1])), path=Q.render_path(rb, p))
     # EAGAIN arms yield and loop (no return)
     for bd, pat in ((body, '*::yield_for_write'), (rb, '*::yield_for_read')):
         ys = Q.find_calls(bd, [pat])
